@@ -7,6 +7,7 @@
 //!   `pmf   <dist> <params> n k1 … kn`  -> `= y1 … yn`    (discrete)
 //!   `mean <dist> <params>` | `var <dist> <params>`       -> `= y`
 //!   `mvn_pdf k mean[k] cov[k*k] m xs[m*k]` | `mvn_lnpdf …` -> `= y1 … ym`
+//!   `mvn_mean k mean[k] cov[k*k]` -> `= k m1 … mk`;  `mvn_var k mean[k] cov[k*k]` -> `= nrows ncols c11 … ckk`
 //! `<dist> <params>`: normal μ σ | gamma α β | beta α β | chi2 dof | t ν | pareto α xm | gumbel μ β |
 //! exponential λ | uniform lo hi | poisson λ | binomial n p | bernoulli p | duniform lo hi
 use compute::distributions::*;
@@ -345,6 +346,21 @@ fn step(_: &mut (), t: &mut Toks) -> R<String> {
                 ys.push(if op == "mvn_pdf" { (&d).pdf(x) } else { (&d).ln_pdf(x) });
             }
             Ok(ok(show_fs(&ys)))
+        }
+        "mvn_mean" | "mvn_var" => {
+            let k = t.usize()?;
+            let mu = t.f64s(k)?;
+            let cov = t.f64s(k * k)?;
+            t.end()?;
+            let c = Matrix::new(cov, k as i32, k as i32);
+            let d = MVN::new(mu, c);
+            if op == "mvn_mean" {
+                let m: &[f64] = (&d).mean();
+                Ok(ok(show_vec(m)))
+            } else {
+                let v: &Matrix = (&d).var();
+                Ok(ok(format!("{} {} {}", v.nrows, v.ncols, show_fs(&v.data()))))
+            }
         }
         _ => Err(BadOp),
     }
